@@ -150,6 +150,8 @@ func doDump(u *ir.Universe, what string) {
 		for _, o := range e.Opaque {
 			fmt.Printf("OPAQUE %s at %s args %v\n", o.Callee, u.InstrPos(o.Site), ir.PathStrings(o.Args))
 		}
+	case "sites":
+		rules.DumpSites(u, fn)
 	case "paths":
 		for _, f := range ir.WithClosures(fn) {
 			fmt.Println("==", u.ShortName(f))
